@@ -37,8 +37,7 @@ Types == {"clientHello", "serverHello", "certificate", "serverKeyExchange", "cer
           "serverHelloDone", "clientKeyExchange", "finished", "nextProto", "certificateRequest",
           "certificateVerify", "newSessionTicket", "sessionState"}
 
-Layout(t) ==
-  CASE t = "clientHello" ->
+LClientHello ==
         << H, F("vers", "", 2, ""), F("random", "", 32, ""), V("sessionId", "", 1, ""),
            V("cipherSuites", "", 2, ""), V("compression", "", 1, ""), Exts,
            X("npn", 13172, "npn"),
@@ -50,7 +49,8 @@ Layout(t) ==
            X("sigalgs", 13, "sigalgs"), V("sigalgs.list", "sigalgs", 2, ""),
            X("reneg", 65281, "reneg"), V("reneg.info", "reneg", 1, ""),
            X("alpn", 16, "alpn"), V("alpn.list", "alpn", 2, ""), V("alpn.n1", "alpn.list", 1, ""), V("alpn.n2", "alpn.list", 1, "") >>
-    [] t = "serverHello" ->
+
+LServerHello ==
         << H, F("vers", "", 2, ""), F("random", "", 32, ""), V("sessionId", "", 1, ""),
            F("cipherSuite", "", 2, ""), F("compression", "", 1, ""), Exts,
            X("npn", 13172, "npn"), V("npn.p1", "npn", 1, ""), V("npn.p2", "npn", 1, ""),
@@ -58,22 +58,56 @@ Layout(t) ==
            X("ticket", 35, "ticket"),
            X("reneg", 65281, "reneg"), V("reneg.info", "reneg", 1, ""),
            X("alpn", 16, "alpn"), V("alpn.list", "alpn", 2, ""), V("alpn.name", "alpn.list", 1, "") >>
-    [] t = "certificate" ->
+
+LCertificate ==
         << H, V("certs", "", 3, ""), V("cert1", "certs", 3, "c1"), V("cert2", "certs", 3, "c2") >>
-    [] t = "serverKeyExchange" -> << H, R("key", "") >>
-    [] t = "certificateStatus" -> << H, F("statusType", "", 1, ""), V("response", "", 3, "ocsp") >>
-    [] t = "serverHelloDone" -> << H >>
-    [] t = "clientKeyExchange" -> << H, R("ciphertext", "") >>
-    [] t = "finished" -> << H, R("verifyData", "") >>
-    [] t = "nextProto" -> << H, V("proto", "", 1, ""), V("padding", "", 1, "") >>
-    [] t = "certificateRequest" ->
+
+LServerKeyExchange ==
+        << H, R("key", "") >>
+
+LCertificateStatus ==
+        << H, F("statusType", "", 1, ""), V("response", "", 3, "ocsp") >>
+
+LServerHelloDone ==
+        << H >>
+
+LClientKeyExchange ==
+        << H, R("ciphertext", "") >>
+
+LFinished ==
+        << H, R("verifyData", "") >>
+
+LNextProto ==
+        << H, V("proto", "", 1, ""), V("padding", "", 1, "") >>
+
+LCertificateRequest ==
         << H, V("types", "", 1, ""), V("sigalgs", "", 2, "sig"),
            V("cas", "", 2, ""), V("ca1", "cas", 2, "ca1"), V("ca2", "cas", 2, "ca2") >>
-    [] t = "certificateVerify" -> << H, F("sigalg", "", 2, "sig"), V("signature", "", 2, "") >>
-    [] t = "newSessionTicket" -> << H, F("lifetime", "", 4, ""), V("ticket", "", 2, "") >>
-    [] t = "sessionState" ->
+
+LCertificateVerify ==
+        << H, F("sigalg", "", 2, "sig"), V("signature", "", 2, "") >>
+
+LNewSessionTicket ==
+        << H, F("lifetime", "", 4, ""), V("ticket", "", 2, "") >>
+
+LSessionState ==
         << F("vers", "", 2, ""), F("cipherSuite", "", 2, ""), V("master", "", 2, ""),
            Nd("certs", "cnt", "", 2, 0, 0, "", FALSE), V("cert1", "certs", 4, "c1"), V("cert2", "certs", 4, "c2") >>
+
+Layout(t) ==
+  CASE t = "clientHello" -> LClientHello
+    [] t = "serverHello" -> LServerHello
+    [] t = "certificate" -> LCertificate
+    [] t = "serverKeyExchange" -> LServerKeyExchange
+    [] t = "certificateStatus" -> LCertificateStatus
+    [] t = "serverHelloDone" -> LServerHelloDone
+    [] t = "clientKeyExchange" -> LClientKeyExchange
+    [] t = "finished" -> LFinished
+    [] t = "nextProto" -> LNextProto
+    [] t = "certificateRequest" -> LCertificateRequest
+    [] t = "certificateVerify" -> LCertificateVerify
+    [] t = "newSessionTicket" -> LNewSessionTicket
+    [] t = "sessionState" -> LSessionState
 
 Range(s) == {s[i] : i \in 1..Len(s)}
 Flags(t) == {n.opt : n \in Range(Layout(t))} \ {"", "*"}
@@ -118,15 +152,13 @@ CutOK(s, n, w) ==
       [] OTHER        -> w \in {"before", "inlen", "afterlen"} \cup (IF HasChild(s, n) THEN {} ELSE {"mid", "endm1"})
 PertOK(n) == n.k \in {"vec", "ext", "cnt", "hdr"}
 
-Ops(t, p) ==
-    LET s == Nodes(t, p) IN
+Ops(s) ==
       {[k |-> "rt", node |-> "", w |-> "", framed |-> TRUE]}
       \cup {[k |-> "cut", node |-> s[i].id, w |-> w, framed |-> fr] :
               i \in 1..Len(s), w \in Wheres, fr \in BOOLEAN}
       \cup {[k |-> "pert", node |-> s[i].id, w |-> d, framed |-> TRUE] : i \in 1..Len(s), d \in Deltas}
 
-OpOK(t, p, op) ==
-    LET s == Nodes(t, p) IN
+OpOK(s, op) ==
       \/ op.k = "rt"
       \/ op.k = "cut" /\ CutOK(s, s[Index(s, op.node)], op.w)
                       /\ (op.framed \/ s[1].k = "hdr")          \* without a header framed = raw
@@ -161,32 +193,32 @@ PertExpect(s, op) ==
     LET n == s[Index(s, op.node)] IN
       IF n.k # "hdr" /\ op.w \in {"plus1", "max"} /\ IsTail(s, n) THEN "reject" ELSE "any"
 
-Expect(t, p, op) ==
-    LET s == Nodes(t, p) IN
+Expect(s, op) ==
       IF op.k = "rt" THEN "accept"
       ELSE IF op.k = "cut" THEN CutExpect(s, op) ELSE PertExpect(s, op)
 
 \* ------------------------------------------------------------------ transition system
-VARIABLES t, pres, op, done, verdict
-vars == <<t, pres, op, done, verdict>>
+VARIABLES t, pres, nodes, op, done, verdict
+vars == <<t, pres, nodes, op, done, verdict>>
 
 Init == /\ t \in Types /\ pres \in PresenceSets(t)
-        /\ op \in {o \in Ops(t, pres) : OpOK(t, pres, o)}
+        /\ nodes = Nodes(t, pres)
+        /\ op \in {o \in Ops(nodes) : OpOK(nodes, o)}
         /\ done = FALSE /\ verdict = "none"
-Parse == ~done /\ done' = TRUE /\ verdict' = Expect(t, pres, op) /\ UNCHANGED <<t, pres, op>>
+Parse == ~done /\ done' = TRUE /\ verdict' = Expect(nodes, op) /\ UNCHANGED <<t, pres, nodes, op>>
 Next == Parse
 Spec == Init /\ [][Next]_vars
 
 \* ------------------------------------------------------------------ sanity of the transcription
 \* ids unique, parents declared earlier, endok only at message level, every shape has exactly
 \* one tail leaf, a header (if any) comes first
-LayoutOK == \A ty \in Types :
+ASSUME LayoutOK == \A ty \in Types :
     LET s == Layout(ty) IN
       /\ \A i, j \in 1..Len(s) : s[i].id = s[j].id => i = j
       /\ \A i \in 1..Len(s) : s[i].par # "" => \E j \in 1..(i - 1) : s[j].id = s[i].par
       /\ \A i \in 1..Len(s) : s[i].endok => s[i].par = ""
       /\ \A i \in 2..Len(s) : s[i].k # "hdr"
-ShapeOK == LET s == Nodes(t, pres) IN
+ShapeOK == LET s == nodes IN
       /\ Cardinality({i \in 1..Len(s) : IsTail(s, s[i]) /\ ~HasChild(s, s[i]) /\ s[i].k # "hdr"}) <= 1
       /\ (Len(s) > 1 => \E i \in 1..Len(s) : IsTail(s, s[i]) /\ s[i].k # "hdr")
 VerdictOK == done => /\ verdict \in {"accept", "reject", "any"}
